@@ -197,47 +197,39 @@ def accessor_rules(ctx):
         for getter, table in prs:
             f = repo.method(ci.qualname, getter)
             r.instance(fn=f.qualname)
-            # calls self._<something>() in the body
-            tabcalls = []
-            evalcalls = []
-            for n in ast.walk(f.node):
-                if isinstance(n, ast.Call):
-                    d = dotted(n.func) or ""
-                    if d.startswith("self._") and (d[5:] in dict(pairs + hpairs).values()):
-                        tabcalls.append((d[5:], n))
-                    if d.endswith("_Eval_Functions"):
-                        evalcalls.append(n)
-            names = {t for t, _ in tabcalls}
-            if names != {table}:
-                r.fail(f.qualname, "table", f.file, f.lineno, f"{ci.name}.{getter}",
-                       f"evaluates table(s) {sorted(names) or 'none'}; expected exactly self.{table}()")
+            # interpreted on a recorder element (the call syntax used to be matched; it fired on a shared-helper extraction,
+            # refactored/C06-R7): every Hermitian table is replaced by functions labelled with the table's name, the Gauss
+            # coordinates by labels; the getter must return table X's functions evaluated at the Gauss points of its rule
+            from types import SimpleNamespace as _NS
+
+            nP, nH = 3, 4
+
+            def mk(tname, n, ff):
+                return lambda *a, _t=tname, _n=n, _f=ff: Lbl("H", _t, _n, _f, tuple(a))
+
+            obj = XObj(ci, {"dim": 1, "nPe": 2})
+            for _, tname in hpairs:
+                obj.attrs[tname] = lambda _t=tname: XArray((nH, 1), [mk(_t, n, 0) for n in range(nH)])
+            seen_mt = []
+            obj.attrs["Get_gauss"] = lambda mt=None, _s=seen_mt: (_s.append(mt), _NS(coord=XArray((nP, 1), [Lbl("g", p) for p in range(nP)]), nPg=nP, weights=XArray((nP,), [1] * nP)))[1]
+            try:
+                res = Interp(repo).call_function(f, [], self_obj=obj)
+            except XRaise as e:
+                r.fail(f.qualname, "eval", f.file, f.lineno, f"{ci.name}.{getter}", f"raises {e}")
                 continue
-            if len(evalcalls) != 1:
-                r.fail(f.qualname, "eval", f.file, f.lineno, f"{ci.name}.{getter}",
-                       f"{len(evalcalls)} calls of _Eval_Functions, expected 1")
-                continue
-            # first argument must be the table value (possibly via a local)
-            call = evalcalls[0]
-            if not call.args:
-                r.fail(f.qualname, "eval-args", f.file, call.lineno, f"{ci.name}.{getter}", "_Eval_Functions called without positional table")
-                continue
-            a0 = call.args[0]
-            ok = False
-            if isinstance(a0, ast.Call) and dotted(a0.func) == f"self.{table}":
-                ok = True
-            elif isinstance(a0, ast.Name):
-                for st in ast.walk(f.node):
-                    if isinstance(st, ast.Assign) and any(isinstance(t, ast.Name) and t.id == a0.id for t in st.targets):
-                        if isinstance(st.value, ast.Call) and dotted(st.value.func) == f"self.{table}":
-                            ok = True
-            # second argument: <gauss>.coord
-            a1 = call.args[1] if len(call.args) > 1 else None
-            ok2 = isinstance(a1, ast.Attribute) and a1.attr == "coord"
-            if ok and ok2:
-                r.ok(f"{ci.name}.{getter}: _Eval_Functions(self.{table}(), gauss.coord)")
+            bad = None
+            if not isinstance(res, XArray) or res.shape != (nP, 1, nH):
+                bad = f"returns {getattr(res, 'shape', res)!r}, expected the (nPg, 1, 2 nPe) table"
             else:
-                r.fail(f.qualname, "eval-flow", f.file, call.lineno, f"{ci.name}.{getter}",
-                       f"_Eval_Functions is not applied to (self.{table}(), <gauss>.coord): {norm_text(call)}")
+                for pp in range(nP):
+                    for n in range(nH):
+                        want = Lbl("H", table, n, 0, (Lbl("g", pp),))
+                        if res[pp, 0, n] != want and bad is None:
+                            bad = f"entry [p={pp}, 0, n={n}] holds {res[pp, 0, n]!r}, expected function n={n} of self.{table}() at Gauss point {pp}"
+            if bad:
+                r.fail(f.qualname, "table", f.file, f.lineno, f"{ci.name}.{getter}", bad)
+            else:
+                r.ok(f"{ci.name}.{getter}: self.{table}() evaluated at the Gauss points")
     # _Eval_Functions by label interpretation
     f = repo.method(GE, "_Eval_Functions")
     r.instance(fn=f.qualname)
